@@ -311,7 +311,6 @@ void Ranges::appendUnique(long start, long end, long step) {
 
     long subStart = start;
     long subEnd = start;
-    long subStep = step;
     long last = start;
     size_t pending = 0; // Track unique value count
 
@@ -331,6 +330,9 @@ void Ranges::appendUnique(long start, long end, long step) {
         }
         pred = &predDecRangeDone;
     }
+
+    // Sub-ranges use the step in the direction of the range
+    long subStep = step;
 
     // Short-circuit if this is the first range being added
     if (m_blocks.empty()) {
